@@ -1,6 +1,7 @@
 package main
 
 import (
+	"crypto/sha1"
 	"encoding/json"
 	"flag"
 	"fmt"
@@ -399,7 +400,7 @@ func realMain() int {
 	}
 	for _, u := range units {
 		ut0 := time.Now()
-		x := &Run{prog: prog, fset: prog.Fset, d: newDecls(), spec: db, arrSorts: map[string]Sort{}, arrRefEl: map[string]bool{}, arrSliceRefEl: map[string]string{}, maxPaths: *flagMaxPaths, timeout: timeout, maxDepth: 6, trusted: map[string]bool{}, modCache: map[*ssa.Function]*ModSet{}, inlined: map[string]bool{}, opaque: map[string]bool{}, closable: closable, sendable: sendable, mapZero: map[string]string{}, ctxInner: map[string]Val{}}
+		x := &Run{prog: prog, fset: prog.Fset, d: newDecls(), spec: db, arrSorts: map[string]Sort{}, arrRefEl: map[string]bool{}, arrSliceRefEl: map[string]string{}, libFieldArr: map[string]bool{}, maxPaths: *flagMaxPaths, timeout: timeout, maxDepth: 6, trusted: map[string]bool{}, modCache: map[*ssa.Function]*ModSet{}, inlined: map[string]bool{}, opaque: map[string]bool{}, closable: closable, sendable: sendable, mapZero: map[string]string{}, ctxInner: map[string]Val{}}
 		ur := &UnitResult{}
 		var finals []*State
 		if u.con != nil {
@@ -492,7 +493,15 @@ func realMain() int {
 				}
 			}
 		}
+		vac := vacuousObligations(x, x.obls)
 		ur.Obligations = groupObligations(x.obls)
+		for _, g := range ur.Obligations {
+			if vac[g.Name] && g.Status == "discharged" {
+				g.Status = "undischarged"
+				g.Solver = "vacuity"
+				g.Note = "vacuous: no satisfiable path reaches this obligation (every path condition under which it was generated is contradictory)"
+			}
+		}
 		if *flagDump != "" {
 			os.MkdirAll(*flagDump, 0o755)
 			for i, ob := range x.obls {
@@ -607,6 +616,82 @@ func printUnit(u *UnitResult) {
 	if len(u.Opaque) > 0 {
 		fmt.Printf("   opaque: %v\n", u.Opaque)
 	}
+}
+
+// vacuousObligations: names of functional obligations (post, pre, lemma, inv,
+// loop) none of whose instances was generated under a satisfiable path
+// condition. Such an obligation is "proved" by a contradiction - typically an
+// assumption imported from a callee's contract that cannot hold - and must not
+// count as discharged.
+func vacuousObligations(x *Run, obls []*Obligation) map[string]bool {
+	byName := map[string][]*Obligation{}
+	for _, ob := range obls {
+		switch ob.Kind {
+		case "post", "pre", "lemma", "inv", "loop":
+			byName[ob.Name] = append(byName[ob.Name], ob)
+		}
+	}
+	pre := ""
+	for _, l := range strings.Split(x.d.preamble(), "\n") {
+		if !strings.Contains(l, "(forall ") {
+			pre += l + "\n"
+		}
+	}
+	res := map[string]bool{}
+	var mu sync.Mutex
+	var wg sync.WaitGroup
+	sem := make(chan struct{}, 16)
+	memo := sync.Map{} // pc signature -> status
+	for name, list := range byName {
+		wg.Add(1)
+		go func(name string, list []*Obligation) {
+			defer wg.Done()
+			sem <- struct{}{}
+			defer func() { <-sem }()
+			for i, ob := range list {
+				if i >= 24 {
+					return // many instances, none decided contradictory so far: not flagged
+				}
+				dead := false
+				var b strings.Builder
+				b.WriteString(pre)
+				for _, c := range ob.pcRef {
+					pl := pcPlain(c)
+					if pl == "false" {
+						dead = true
+						break
+					}
+					if !strings.Contains(pl, "(forall ") {
+						b.WriteString("(assert " + pl + ")\n")
+					}
+				}
+				if dead {
+					continue
+				}
+				q := b.String()
+				h := sha1.Sum([]byte(q))
+				var st string
+				if v, ok := memo.Load(h); ok {
+					st = v.(string)
+				} else {
+					r := solve(q, 3, false, []string{"z3-new"})
+					st = r.Status
+					memo.Store(h, st)
+				}
+				if st != "unsat" {
+					return // reachable (or undecided): not vacuous
+				}
+				if d := os.Getenv("GOVC_DUMP_VAC"); d != "" {
+					os.WriteFile(filepath.Join(d, strings.NewReplacer("/", "_", "*", "_", "(", "_", ")", "_").Replace(name)+fmt.Sprintf(".%d.smt2", i)), []byte(q+"(check-sat)\n"), 0o644)
+				}
+			}
+			mu.Lock()
+			res[name] = true
+			mu.Unlock()
+		}(name, list)
+	}
+	wg.Wait()
+	return res
 }
 
 func groupObligations(obls []*Obligation) []*OblResult {
